@@ -347,7 +347,7 @@ def c06_tree_stream(seed, tier):
             out.append(c06_tree_scenario(jobs, f"2x2-{r0}{r1}{d}".replace(" ", ""), len(out)))
     rnd = random.Random(seed * 31 + 5)
     shapes = [(2, 3), (3, 2)] if tier == "quick" else [(2, 3), (3, 2), (3, 3), (3, 3), (4, 2), (2, 4)]
-    n = 16 if tier == "quick" else 240
+    n = 16 if tier == "quick" else 120
     for i in range(n):
         nj, nm = shapes[i % len(shapes)]
         jobs = []
@@ -358,7 +358,7 @@ def c06_tree_stream(seed, tier):
         out.append(c06_tree_scenario(jobs, f"r{seed}-{i}", i))
     if tier == "thorough":
         for x in out:
-            x["tree_cap"] = 40000
+            x["tree_cap"] = 20000
         for nj, nm in ((2, 3), (3, 2)):
             routes = list(itertools.permutations(range(nm)))
             for rs in itertools.product(routes, repeat=nj):
